@@ -38,6 +38,7 @@ typedef struct vp_iface {
 /* process-wide attributes (the port API has no iface argument for these) */
 typedef struct vp_global {
     uint8_t *icon;  size_t icon_len;  int icon_present;   /* present=0: getter fails */
+    int empty_block;                                       /* an EMPTY icon / name is handed over as a zero-length block (non-NULL) instead of NULL */
     uint8_t *fname; size_t fname_len; int fname_present;
     uint8_t  hwid[256]; size_t hwid_len;
     uint8_t  host[256]; size_t host_len; int host_full;
@@ -46,6 +47,7 @@ typedef struct vp_global {
 extern vp_iface  vp_ifaces[VP_MAX_IFACE];
 extern vp_global vp_glob;
 extern uint64_t  vp_clock_ms;
+extern uint64_t  vp_clock_jump;
 extern uint8_t   vp_poison;
 #ifndef VP_TL
 #define VP_TL            /* -DVP_TL=__thread: every mutable object of the port becomes thread-local (steady-state TSan run) */
